@@ -61,7 +61,7 @@ pub const CP_MENU: &[GroupDef] = &[
 ];
 
 const LITS: &[char] = &[
-    '/', '/', '/', 'a', 'a', 'b', 'c', 'A', 'B', 'z', '.', '-', '_', '%', '(', ')', '\\', '[', ']', '+', '*', '?', '{', '}', '|', '^', '$', '#',
+    '/', '/', '/', 'a', 'a', 'b', 'c', 'A', 'B', 'z', '.', '-', '_', '%', '(', ')', '\\', '\\', '[', ']', '+', '*', '?', '{', '}', '|', '^', '$', '#',
     '&', '~', '日', '🤘', '€', ' ', '1', '=',
 ];
 
@@ -140,7 +140,9 @@ pub fn instantiate(p: &Pat, rng: &mut Prng, near: bool) -> String {
     }
     if near {
         let cs: Vec<char> = s.chars().collect();
-        match rng.below(6) {
+        match rng.below(8) {
+            6 => s = s.to_ascii_uppercase(),
+            7 => s = s.to_ascii_lowercase(),
             0 if !cs.is_empty() => s = cs[..cs.len() - 1].iter().collect(),
             1 => s.push('x'),
             2 if !cs.is_empty() => {
@@ -384,6 +386,24 @@ pub fn exh_pool() -> Vec<Pat> {
     ]
 }
 
+/// Second exhaustive pool: literal backslashes and escaped parentheses next to groups (the scanner's escape state).
+pub fn exh_pool_escapes() -> Vec<Pat> {
+    let l = |s: &str| Tok::L(s.to_string());
+    let g = |s: &str| Tok::G(s.to_string());
+    vec![
+        vec![l("/a\\"), g("?:x"), l("/b")],
+        vec![l("/a\\"), g("?:x"), l("/c")],
+        vec![l("/a\\"), g("?:x|y")],
+        vec![l("/a\\(b")],
+        vec![l("/a("), g("?:x")],
+        vec![l("/a\\")],
+    ]
+}
+
+pub fn exh_haystacks_escapes() -> Vec<String> {
+    ["/a\\x/b", "/a\\x/c", "/a\\x", "/a\\y", "/a\\(b", "/a(x", "/a\\", "/a", "/A\\X/B"].iter().map(|s| s.to_string()).collect()
+}
+
 pub fn exh_haystacks() -> Vec<String> {
     ["/ax", "/ax/b", "/ax/c", "/ay/b", "/a.b", "/a-b", "/日42", "/日7日", "/axa", "/", "/a", "/AX/B", ""].iter().map(|s| s.to_string()).collect()
 }
@@ -399,8 +419,11 @@ fn emit_modes(emit: &mut dyn FnMut(Value), ic: bool, unique: bool, ops: &[Value]
 }
 
 pub fn gen_exhaustive(emit: &mut dyn FnMut(Value), max_k: usize) {
-    let pool = exh_pool();
-    let hay = exh_haystacks();
+    gen_exhaustive_pool(emit, max_k, &exh_pool(), &exh_haystacks());
+    gen_exhaustive_pool(emit, max_k, &exh_pool_escapes(), &exh_haystacks_escapes());
+}
+
+fn gen_exhaustive_pool(emit: &mut dyn FnMut(Value), max_k: usize, pool: &[Pat], hay: &[String]) {
     let ids: Vec<String> = (0..pool.len()).map(|i| format!("i{i}")).collect();
     for k in 1..=max_k {
         let perms = permutations(k);
@@ -415,7 +438,7 @@ pub fn gen_exhaustive(emit: &mut dyn FnMut(Value), max_k: usize) {
                         }
                     }
                     // the behaviour of the same history on a case-insensitive tree differs only in the matcher
-                    emit_modes(emit, false, false, &ops, &hay, true, &["beh", "snap"]);
+                    emit_modes(emit, false, false, &ops, hay, true, &["beh", "snap"]);
                 }
             }
         }
@@ -627,16 +650,24 @@ fn real_closed(body: &str) -> bool {
     depth == 1 && !in_cls
 }
 
-/// The tree's scanner: "(" body ")" returns to (0,false) at its last char and at no earlier char.
+/// The tree's scanner as specified (prefix.rs, re-implemented here so that the domain of the property does not depend on
+/// the code under test): "(" body ")" returns to (0,false) at its last char and at no earlier char.
 fn scan_closed(body: &str) -> bool {
     let full: Vec<char> = std::iter::once('(').chain(body.chars()).chain(std::iter::once(')')).collect();
-    for k in 1..=full.len() {
-        let pre: String = full[..k].iter().collect();
-        let b = at_boundary(&pre);
-        if k < full.len() && b {
+    let mut depth: i64 = 0;
+    let mut esc = false;
+    for (k, &c) in full.iter().enumerate() {
+        if c == '(' && !esc {
+            depth += 1;
+        } else if c == ')' && !esc {
+            depth -= 1;
+        }
+        esc = c == '\\' && !esc;
+        let boundary = depth == 0 && !esc;
+        if k + 1 < full.len() && boundary {
             return false;
         }
-        if k == full.len() && !b {
+        if k + 1 == full.len() && !boundary {
             return false;
         }
     }
@@ -674,6 +705,23 @@ fn depth_of(snap: &Value) -> usize {
     match snap.get("children").and_then(|c| c.as_array()) {
         Some(cs) => 1 + cs.iter().map(depth_of).max().unwrap_or(0),
         None => 0,
+    }
+}
+
+/// Shape statistics of a snapshot: (has a node with empty prefix, max children of a node, max ids in a leaf).
+fn shape_of(snap: &Value) -> (bool, usize, usize) {
+    match snap.get("kind").and_then(|k| k.as_str()) {
+        Some("node") => {
+            let cs = snap.get("children").and_then(|c| c.as_array()).cloned().unwrap_or_default();
+            let mut r = (snap.get("prefix").and_then(|p| p.as_str()) == Some(""), cs.len(), 0);
+            for c in &cs {
+                let s = shape_of(c);
+                r = (r.0 || s.0, r.1.max(s.1), r.2.max(s.2));
+            }
+            r
+        }
+        Some("leaf") => (false, 0, snap.get("ids").and_then(|c| c.as_array()).map(|a| a.len()).unwrap_or(0)),
+        _ => (false, 0, 0),
     }
 }
 
@@ -745,6 +793,9 @@ pub fn run(case: &Value) -> Obs {
     let mut ids_ok = true;
     let mut steps = Vec::new();
     let mut max_depth = 0;
+    let mut shape = (false, 0usize, 0usize);
+    let mut collapsed = false;
+    let mut last_depth = 0;
     let mut any_hit = false;
     let mut oracle_fail: Option<String> = None;
     let dom = domain(&pats);
@@ -786,7 +837,14 @@ pub fn run(case: &Value) -> Obs {
         }
         if mode == "snap" {
             let snap = tree.snapshot();
-            max_depth = max_depth.max(depth_of(&snap));
+            let d = depth_of(&snap);
+            if d < last_depth {
+                collapsed = true;
+            }
+            last_depth = d;
+            max_depth = max_depth.max(d);
+            let sh = shape_of(&snap);
+            shape = (shape.0 || sh.0, shape.1.max(sh.1), shape.2.max(sh.2));
             let clen = compiled_count(&snap);
             if let Tree::Multi(t) = &tree {
                 if t.cached_len() != clen {
@@ -826,6 +884,18 @@ pub fn run(case: &Value) -> Obs {
     }
     if mode == "snap" {
         tags.push(format!("depth:{max_depth}"));
+        if shape.0 {
+            tags.push("shape:empty-prefix-node".to_string());
+        }
+        if shape.1 >= 3 {
+            tags.push("shape:node-with-3+-children".to_string());
+        }
+        if shape.2 >= 2 {
+            tags.push("shape:leaf-with-2+-ids".to_string());
+        }
+        if collapsed {
+            tags.push("shape:collapsed".to_string());
+        }
     }
     if !ids_ok {
         tags.push("id-reuse".to_string());
